@@ -153,9 +153,9 @@ class Params:
         if r.random() < 0.6:
             add("Flag", {"Type": "String", "Default": r.choice(["true", "false", "True"])}, "str")
         if r.random() < 0.7:
-            add("L", {"Type": "CommaDelimitedList", "Default": r.choice(["a,b", "x", "a,,b", ""])}, "list", r.choice([None, "p,q", ["l1", "l2"]]))
+            add("L", {"Type": "CommaDelimitedList", "Default": r.choice(["a,b", "x", "a,,b", "", 7, " a , b "])}, "list", r.choice([None, "p,q", ["l1", "l2"], 8080, 1.5]))
         if r.random() < 0.5:
-            add("LN", {"Type": "List<Number>", "Default": "1,2,3"}, "list")
+            add("LN", {"Type": "List<Number>", "Default": r.choice(["1,2,3", "1,2,3", 443, "80, 443", 0])}, "list", r.choice([None, None, 8080, "80,443", [1, 2]]))
         if r.random() < 0.5:
             add("LUnset", {"Type": r.choice(["CommaDelimitedList", "List<Number>"])}, "list")             # value-less list parameter
         if r.random() < 0.4:
@@ -966,4 +966,15 @@ def pipeline(x):
     q1 = run_queries(r, ctxs)
     q2 = run_queries(e, ctxs, action_lists=False)
     t4 = time.perf_counter()
-    return {"stages_ms": [round((b - a) * 1000, 2) for a, b in ((t0, t1), (t1, t2), (t2, t3), (t3, t4))], "resolved": q1, "expanded": q2}
+    # the same stages asked AGAIN of the same objects (a caller that keeps a model around): the statement has no "first call only" clause
+    e_again = r.expand_actions()
+    r_again = m.resolve(copy.deepcopy(x["extra"]))
+    e_third = r_again.expand_actions()
+    q3 = run_queries(r, ctxs)
+    t5 = time.perf_counter()
+    first, again = (t3 - t1) + (t4 - t3) / 2, t5 - t4
+    if again > 20 * first + 2.0:
+        raise TimeoutError(f"asking the same objects again took {again:.2f} s where the first round took {first:.2f} s")
+    del e_again, e_third
+    return {"stages_ms": [round((b - a) * 1000, 2) for a, b in ((t0, t1), (t1, t2), (t2, t3), (t3, t4), (t4, t5))], "resolved": q1, "expanded": q2,
+            "again_same": q3 == q1}
